@@ -104,6 +104,17 @@ def _own_arc(pts, equalize=True):
     return arc
 
 
+def _unit_f(v):
+    n = math.sqrt(sum(float(x) * float(x) for x in v))
+    return [float(x) / n for x in v]
+
+
+def _cos_sin(t: float):
+    """an exact rational point of the unit circle within 1e-16 of (cos t, sin t), from u = tan(t/2)"""
+    u = Fraction(math.tan(t / 2))
+    return (1 - u * u) / (1 + u * u), 2 * u / (1 + u * u)
+
+
 class C16(core.Check):
     pid = "C16"
     props_module = "CBV.Props.C16"
@@ -131,7 +142,10 @@ class C16(core.Check):
     partial_note = (
         "Theorems cover discrete curves, the polyline arithmetic of all lengths, the linear interpolant and curve edges. "
         "Spline curves: through-points/ends/closest parameter are validator checks; their length is not additive between "
-        "knots (known finding). Analytic curves: additivity only up to the discretisation error (2e-3)."
+        "knots (known finding). Analytic curves: the polyline of one discretisation is exactly additive at its sample points and "
+        "monotone (theorems, every sample count), additivity between arbitrary parameters only up to the re-sampling with 100 points "
+        "(2e-3, oracle); CircleCurve over the reals: chord sum <= arc length and closest parameter = the query's angle (theorems), the "
+        "minimiser's answer is validated against the closed-form distance to the circle; scipy's minimiser and spline interpolation stay oracles."
     )
 
     # ------------------------------------------------------------------ generators
@@ -598,6 +612,8 @@ class C16(core.Check):
         for q in queries:
             t = float(curve.get_closest_param(q["p"]))
             o = {"t": t, "d": _dist(fl(curve.get_point(t)), q["p"])}
+            if kind == "analytic":
+                o["p"] = fl(q["p"])
             if kind != "discrete":
                 if scan is None:
                     scan = [fl(curve.get_point(min(hi, lo + (hi - lo) * i / (N_SCAN - 1)))) for i in range(N_SCAN)]
@@ -784,6 +800,23 @@ class C16(core.Check):
             opt = lambda v: "none" if v is None else core.rat(v)
             for c in impl.get("argcalls", []):
                 reqs.append(f"c16.params {core.rat(lo)} {core.rat(hi)} {opt(c['a'])} {opt(c['b'])} {case['count']}")
+        elif kind == "analytic" and case["curve"] == "line":
+            # round 6: LineCurve's function and AnalyticCurve.get_length (argument handling, 100 samples, polyline) in the model
+            lo, hi = impl["bounds"]
+            for a, b in case["pairs"]:
+                reqs.append(
+                    f"c16.linelen {_vec(case['p1'])} {_vec(case['p2'])} {core.rat(lo)} {core.rat(hi)} {core.rat(a)} {core.rat(b)} {eps}"
+                )
+        elif kind == "analytic" and case["curve"] == "circle":
+            # round 6: CircleCurve's function (Rodrigues) with an exact rational (cos t, sin t), and its closest parameter
+            # against the analytic optimum (T_C16_circle_closest_real)
+            head = f"{_vec(case['origin'])} {_vec(case['rim'])} {_vec(_unit_f(case['normal']))}"
+            for a, _b in case["pairs"]:
+                ct, st = _cos_sin(a)
+                reqs.append(f"c16.circle {head} {core.rat(ct)} {core.rat(st)}")
+            for o in impl["queries"]:
+                ct, st = _cos_sin(o["t"])
+                reqs.append(f"c16.vcircle {head} {_vec(o['p'])} {core.rat(ct)} {core.rat(st)} {eps}")
         elif kind == "tf" and case["curve"] == "linear":
             for a, b in case["pairs"]:
                 reqs.append(f"c16.ilen {_vecs(impl['moved'])} {core.rat(a)} {core.rat(b)} {eps}")
@@ -870,6 +903,37 @@ class C16(core.Check):
                 rec = c["recorded"]
                 if len(rec) != len(want) or not max(abs(x - y) for x, y in zip(rec, want)) <= 1e-12 * max(1.0, *map(abs, impl["bounds"])):
                     return f"{call} evaluates the curve at {rec[:2]}…{rec[-1:]}, model {want[:2]}…{want[-1:]}"
+            return None
+        if kind == "analytic" and case["curve"] == "line":
+            sc = max(1.0, _dist(case["p1"], case["p2"]) * max(1.0, *map(abs, impl["bounds"])))
+            for (a, b), o, ans in zip(case["pairs"], impl["pairs"], model):
+                w = ans.split()
+                if w[0] != "ok":
+                    return f"LineCurve.get_length({a}, {b}): model answers {ans[:60]}"
+                ml = float(core.parse_rat(w[1]))
+                if not abs(ml - o["len"]) <= TOL * sc * 10:
+                    return f"LineCurve.get_length({a}, {b}): implementation {o['len']}, model (100-point polyline) {ml}"
+            return None
+        if kind == "analytic" and case["curve"] == "circle":
+            sc = max(1.0, *[abs(x) for x in case["origin"]], case.get("size", 1.0))
+            it = iter(model)
+            for (a, _b), o in zip(case["pairs"], impl["pairs"]):
+                w = next(it).split()
+                mp = [float(core.parse_rat(x)) for x in w[1].split(",")]
+                if not _dist(mp, o["pa"]) <= TOL * sc * 10:
+                    return f"CircleCurve.get_point({a}): implementation {o['pa']}, model {mp}"
+            for o in impl["queries"]:
+                w = next(it).split()
+                if w[0] != "ok":
+                    return f"CircleCurve.get_closest_param({o['p']}): model answers {w}"
+                d, dmin = math.sqrt(float(core.parse_rat(w[1]))), math.sqrt(max(0.0, float(core.parse_rat(w[2]))))
+                if not abs(d - o["d"]) <= TOL * sc * 10:
+                    return f"CircleCurve.get_point({o['t']}): {o['d']} from the query, model's curve point {d}"
+                if not d <= dmin + TOL_MIN * sc * 10:
+                    return (
+                        f"CircleCurve.get_closest_param({o['p']}) = {o['t']}: curve point {d} away, the circle is {dmin} away "
+                        "(closest point = the point at the query's own angle)"
+                    )
             return None
         if kind == "tf":
             it = iter(model)
